@@ -50,10 +50,14 @@ def strip_dup(obs):
         o = dict(o)
         # a duplicate-key wrapper is the library's intended cross-block influence - when the block it refers to is a block
         # the library holds; a key "taken" by something inside a failed block is damage done by a malformed neighbour
-        if o.pop("dup", None) and o.get("dup_prev_held") is False:
-            o["flagged_duplicate_of_a_block_the_library_does_not_hold"] = True
+        if o.pop("dup", None):
+            if o.get("dup_prev_held") is False:
+                o["flagged_duplicate_of_a_block_the_library_does_not_hold"] = True
+            if o.get("dup_same_key") is False:
+                o["flagged_duplicate_of_a_block_with_another_key"] = True
         o.pop("dup_key", None)
         o.pop("dup_prev_held", None)
+        o.pop("dup_same_key", None)
         out.append(o)
     return out
 
@@ -69,31 +73,35 @@ def shift(obs, lines):
     return out
 
 
-def prefix_only(bib, d1: str, x: str):
+def prefix_only(bib, d1: str, x: str, how: str = "split"):
     """First sentence of the statement on its own: D1 followed by arbitrary text and nothing else (X ending the input with
     or without a newline)."""
-    r1, a = splitobs.run_split(bib, d1)
+    r1, a = splitobs.run_split(bib, d1, how)
     if r1:
         return ("raised", r1, None, None)
     a = strip_dup(a)
     for tail in (x, x + "\n"):
-        r0, pre = splitobs.run_split(bib, d1 + tail)
+        r0, pre = splitobs.run_split(bib, d1 + tail, how)
         if r0:
             return ("raised", r0, None, None)
+        if how == "default" and any(o.get("dup") and o.get("dup_prev_held") and o.get("dup_same_key") for o in pre):
+            continue
         if strip_dup(pre)[:len(a)] != a:
             return ("prefix_blocks_changed", "blocks of the well-formed prefix differ when text follows (no block after it)",
                     [[o["cls"], o["raw"], o["line"]] for o in pre[:len(a)]], [[o["cls"], o["raw"], o["line"]] for o in a])
     return None
 
 
-def neighbours(bib, d1: str, x: str, d2: str):
+def neighbours(bib, d1: str, x: str, d2: str, how: str = "split"):
     """Returns None or (clause, detail, observed, expected)."""
     whole = d1 + x + "\n" + d2
-    r, big = splitobs.run_split(bib, whole)
-    r1, a = splitobs.run_split(bib, d1)
-    r2, b = splitobs.run_split(bib, d2)
+    r, big = splitobs.run_split(bib, whole, how)
+    r1, a = splitobs.run_split(bib, d1, how)
+    r2, b = splitobs.run_split(bib, d2, how)
     if r or r1 or r2:
         return ("raised", r or r1 or r2, None, None)
+    if how == "default" and any(o.get("dup") and o.get("dup_prev_held") and o.get("dup_same_key") for o in big):
+        return None       # a genuine duplicate is (intentionally) left untransformed by the stack: not comparable block by block
     big, a, b = strip_dup(big), strip_dup(a), strip_dup(b)
     if big[:len(a)] != a:
         return ("prefix_blocks_changed", "blocks of the well-formed prefix differ when text follows",
@@ -230,7 +238,23 @@ def run(chk: core.Check):
             x = rnd.choice(["@article{%s,\n  title = {T},\n  title = 2001\n}" % key, "@article{%s,\n  title = {T,\n  year = 2001\n}" % key,
                             "@article{%s,\n  title {T},\n  year = 2001\n}" % key, "@article{%s, a = 1, A = 2, a = 3}" % key])
             d2 = head + "\n" + d2
+        if k % 40 == 9:
+            # a block of D1 (or of X) whose key differs from the key of D2's first block only in letter case: another key
+            key = "kq%d" % rnd.randint(0, 9)
+            extra = "@article{%s, title = {T}}\n" % key.upper()
+            d1, x = (d1 + ("\n" if d1 and not d1.endswith("\n") else "") + extra, x) if rnd.random() < 0.5 else (d1, extra + x)
+            d2 = "@article{%s,\n  title = {t}\n}\n" % key + d2
+        if k % 40 == 11:
+            # @string names that differ only in letter case, the later one in the middle text
+            d1 = d1 + ("\n" if d1 and not d1.endswith("\n") else "") + "@string{acm = \"A\"}\n@article{e-ref, publisher = acm}\n"
+            x = "@string{ACM = \"B\"}\n" + x
+            # (D2 refers to no string of D1 or X: a reference resolved across the resync point is intended influence)
         bad = prefix_only(bib, d1, x) or neighbours(bib, d1, x, d2)
+        if not bad and k % 4 == 3 or (not bad and k % 40 == 11):
+            # the same through parse_string with the default stack (what the blocks hold after the middlewares ran)
+            bad = prefix_only(bib, d1, x, "default") or neighbours(bib, d1, x, d2, "default")
+            if bad:
+                bad = (bad[0], "default stack: " + str(bad[1]), bad[2], bad[3])
         t3 += 1
         if bad:
             report(chk, {"clause": bad[0], "detail": bad[1], "d1": d1, "x": x, "d2": d2, "obs": bad[2], "exp": bad[3]})
